@@ -26,8 +26,8 @@ type verifStore struct {
 	deleted     []VerifComment
 }
 
-func (s *verifStore) Describe() string                            { return "verif" }
-func (s *verifStore) Destinations(context.Context) ([]any, error) { return []any{1}, nil }
+func (s *verifStore) Describe() string                                     { return "verif" }
+func (s *verifStore) Destinations(context.Context) ([]any, error)          { return []any{1}, nil }
 func (s *verifStore) Summary(context.Context, any, Summary, []error) error { return nil }
 func (s *verifStore) List(context.Context, any) (out []ExistingComment, _ error) {
 	for i, c := range s.comments {
@@ -51,7 +51,9 @@ func (s *verifStore) Delete(_ context.Context, _ any, e ExistingComment) error {
 	}
 	return fmt.Errorf("delete of a comment that does not exist: %s:%d", e.path, e.line)
 }
-func (s *verifStore) CanCreate(done int) bool { return GitLabReporter{maxComments: s.maxComments}.CanCreate(done) }
+func (s *verifStore) CanCreate(done int) bool {
+	return GitLabReporter{maxComments: s.maxComments}.CanCreate(done)
+}
 func (s *verifStore) CanDelete(e ExistingComment) bool {
 	if s.canDelete {
 		return GitLabReporter{}.CanDelete(e)
